@@ -124,6 +124,22 @@ macro_rules! int_type {
                 dim!(ctx, $t, tn, a, b, d, k, Vector2, Point2, 2, [x: 0, y: 1]);
                 dim!(ctx, $t, tn, a, b, d, k, Vector3, Point3, 3, [x: 0, y: 1, z: 2]);
                 {
+                    // `/` and `%` by a scalar involve no product, so they cannot overflow: components over the WHOLE range of the type
+                    let (mx, mn) = ($t::MAX as i128, $t::MIN as i128);
+                    let big: Vec<i128> = vec![mx, if $signed { mn + 1 } else { mx / 2 + 1 }, mx - (a[0].abs() % 5), if $signed { -(mx / 3) - a[1].abs() % 7 } else { mx / 3 }];
+                    let kk = if k == -1 { 3 } else { k };
+                    let vg = Vector4::new(c(big[0]), c(big[1]), c(big[2]), c(big[3]));
+                    let lg = |v: Vector4<$t>| -> Vec<i128> { vec![v.x as i128, v.y as i128, v.z as i128, v.w as i128] };
+                    let wg = |f: &dyn Fn(usize) -> i128| -> Vec<i128> { (0..4).map(|i| f(i)).collect() };
+                    let v3g = Vector3::new(c(big[1]), c(big[0]), c(big[3]));
+                    ctx.scal.rec(lg(vg % c(kk)) == wg(&|i| big[i] % kk) && lg(vg / c(kk)) == wg(&|i| big[i] / kk)
+                        && { let mut m = vg; m %= c(kk); lg(m) == wg(&|i| big[i] % kk) }
+                        && { let mut m = vg; m /= c(kk); lg(m) == wg(&|i| big[i] / kk) }
+                        && lg(vg.rem_element_wise(c(kk))) == wg(&|i| big[i] % kk)
+                        && (v3g % c(kk)).x as i128 == big[1] % kk && (v3g % c(kk)).z as i128 == big[3] % kk,
+                        || format!("Vector4<{}> v % s and v / s over the whole range: v={:?} s={} (v%s={:?}, want {:?})", tn, big, kk, lg(vg % c(kk)), wg(&|i| big[i] % kk)));
+                }
+                {
                     // Vector4 has no point type
                     let va = Vector4::new(c(a[0]), c(a[1]), c(a[2]), c(a[3]));
                     let vb = Vector4::new(c(b[0]), c(b[1]), c(b[2]), c(b[3]));
